@@ -244,11 +244,14 @@ pub struct Execution {
     pub overlap_same_id: bool,
     pub generator: UuidGenerator,
     pub with_probes: bool,
+    /// statistics handle taken before anything was added
+    pub stats0: std::sync::Arc<pricelevel::PriceLevelStatistics>,
 }
 
 pub fn execute(p: &Program, with_probes: bool) -> Execution {
     let universe = p.universe();
     let level = PriceLevel::new(p.price);
+    let stats0 = level.stats();
     let mut initial = Vec::new();
     let mut supplied: u128 = 0;
     for (i, s) in p.preload.iter().enumerate() {
@@ -498,6 +501,7 @@ pub fn execute(p: &Program, with_probes: bool) -> Execution {
         overlap_same_id: w.overlap_same_id,
         generator,
         with_probes,
+        stats0,
     }
 }
 
@@ -707,8 +711,13 @@ pub fn judge(p: &Program, ex: &Execution, drain: bool) -> Judgement {
                 _ => 0,
             })
             .sum();
-        let s = level.stats();
+        // (through the handle taken before the program ran: it is the same statistics object)
+        let s = ex.stats0.clone();
         let got = (s.orders_added(), s.orders_removed(), s.quantity_executed() as u128, s.value_executed() as u128);
+        let fresh = level.stats();
+        if (fresh.orders_added(), fresh.orders_removed(), fresh.quantity_executed() as u128, fresh.value_executed() as u128) != got {
+            v.push(CViolation { oracle: COracle::Stats, msg: "a statistics handle obtained earlier and a fresh one report different figures at quiescence".into() });
+        }
         let want = (adds, removed, qty, qty * p.price as u128);
         if got != want {
             v.push(CViolation {
